@@ -266,6 +266,21 @@ def gen_cmd_lists(rnd, quick):
             if not left[s]:
                 del left[s]
     add("long-distinct-freq-interleaved", inter)
+    # codes LONGER than 16 bits: Fibonacci-like counts turn the top of the tree into a chain (weights 1,1,2,3,5,...: the
+    # k-th symbol from the top costs k bits); every symbol not used so far then hangs below it with a 17..19-bit code.
+    # Once below the first rebuild (about 27500 symbols) and once across rebuilds; each followed by unused literals AND
+    # unused copy lengths, so that the long codes are really walked
+    fibw = [10620, 6560, 4060, 2500, 1560, 940, 620, 320, 310]
+    for nm, reps in (("long-skew-code17", 1), ("long-skew-code17-rebuilt", 3)):
+        syms = rnd.sample(range(256), len(fibw))
+        body = []
+        for _ in range(reps):
+            for s_, w in zip(syms, fibw):
+                body += [("L", s_)] * w
+        rest = [x for x in range(314) if x not in syms]
+        rnd.shuffle(rest)
+        tail = [sym_cmd(x, rnd, fixed_off=9) for x in rest[:12]] + [sym_cmd(x, rnd, fixed_off=9) for x in (300, 313, 256)]
+        add(nm, body + tail + [("L", syms[0])] * 50)
     add("long-uniform-all-codes", [sym_cmd(rnd.randrange(314), rnd, fixed_off=(i * 5) & 4095) for i in range(70000)])
     add("long-alternate-lits", [("L", 0x41 + (i & 1)) for i in range(L)])
     add("long-alternate-lit-copy", [sym_cmd((0x20, 300)[i & 1], rnd, fixed_off=1) for i in range(L)])
